@@ -100,32 +100,51 @@ def build_harness(race=False):
 
 # ---------------------------------------------------------------- theorems
 def compile_props(pid):
-    """Compile Props/<pid>.v afresh; return (obligations, discharged, axioms, log, broken)."""
-    f = os.path.join(COQ, "Props", pid + ".v")
-    src = open(f).read()
-    names = re.findall(r"^\s*(?:Theorem|Corollary)\s+(\w+)", src, re.M)
-    rc, out = sh(["coqc", "-Q", COQ, "Mux", f], cwd=COQ, timeout=1800)
-    closed = out.count("Closed under the global context")
-    ax_blocks = re.findall(r"Axioms:\n((?:.+\n?)+?)(?=\n|\Z)", out)
-    axioms = sorted(set(l.split(":")[0].strip() for b in ax_blocks for l in b.splitlines() if l and not l.startswith(" ")))
-    allowed = all(P.axiom_allowed(a) for a in axioms)
-    discharged = closed + (len(ax_blocks) if allowed else 0)
-    broken = None
-    if rc != 0:
-        m = re.search(r'File "([^"]+)", line (\d+)', out)
-        broken = "Props/%s.v does not compile: %s" % (pid, out.strip().splitlines()[-1] if out.strip() else "?")
-        # which theorem: the last name before the failing line
-        if m:
-            ln = int(m.group(2))
-            before = [n for n in re.finditer(r"^\s*(?:Theorem|Corollary)\s+(\w+)", src, re.M) if src[:n.start()].count("\n") < ln]
-            if before and os.path.basename(m.group(1)) == pid + ".v":
-                broken = "theorem %s (Props/%s.v line %d) no longer checks" % (before[-1].group(1), pid, ln)
+    """Compile the property's theorem files afresh; count the theorems named <pid>_* and how many of
+    them Print Assumptions reports closed (or resting only on std-lib axioms)."""
+    files = P.PROPS[pid].get("props", [pid])
+    names_all, discharged, axioms_all, log_all, broken = [], 0, set(), "", None
+    for fn in files:
+        f = os.path.join(COQ, "Props", fn + ".v")
+        if not os.path.exists(f):
+            broken = (broken + "; " if broken else "") + "Props/%s.v is missing" % fn
+            continue
+        src = open(f).read()
+        order = re.findall(r"^\s*Print Assumptions\s+(\w+)\s*\.", src, re.M)
+        declared = re.findall(r"^\s*(?:Theorem|Corollary)\s+(\w+)", src, re.M)
+        rc, out = sh(["coqc", "-Q", COQ, "Mux", f], cwd=COQ, timeout=1800)
+        log_all += out
+        blocks = re.findall(r"(Closed under the global context|Axioms:\n(?:.+\n?)+?(?=\n|\Z))", out)
+        mine = [n for n in declared if n.startswith(pid + "_")]
+        names_all += mine
+        for k, name in enumerate(order):
+            if name not in mine or k >= len(blocks):
+                continue
+            b = blocks[k]
+            if b.startswith("Closed"):
+                discharged += 1
             else:
-                broken = "%s line %d no longer checks (needed by Props/%s.v)" % (m.group(1), ln, pid)
-        discharged = min(discharged, closed)
-    elif not allowed:
-        broken = "theorem depends on axioms outside the declared trusted base: " + ", ".join(a for a in axioms if not P.axiom_allowed(a))
-    return len(names), discharged, axioms, out, broken, names
+                ax = sorted(set(l.split(":")[0].strip() for l in b.splitlines()[1:] if l and not l.startswith(" ")))
+                axioms_all.update(ax)
+                if all(P.axiom_allowed(a) for a in ax):
+                    discharged += 1
+                else:
+                    broken = (broken + "; " if broken else "") + "theorem %s depends on axioms outside the declared trusted base: %s" % (name, ", ".join(ax))
+        missing = [n for n in mine if n not in order]
+        if missing and rc == 0:
+            broken = (broken + "; " if broken else "") + "no Print Assumptions for " + ", ".join(missing)
+        if rc != 0:
+            m = re.search(r'File "([^"]+)", line (\d+)', out)
+            msg = "Props/%s.v does not compile: %s" % (fn, out.strip().splitlines()[-1] if out.strip() else "?")
+            if m:
+                ln = int(m.group(2))
+                before = [n for n in re.finditer(r"^\s*(?:Theorem|Corollary)\s+(\w+)", src, re.M) if src[:n.start()].count("\n") < ln]
+                if before and os.path.basename(m.group(1)) == fn + ".v":
+                    msg = "theorem %s (Props/%s.v line %d) no longer checks" % (before[-1].group(1), fn, ln)
+                else:
+                    msg = "%s line %d no longer checks (needed by Props/%s.v)" % (m.group(1), ln, fn)
+            broken = (broken + "; " if broken else "") + msg
+    return len(names_all), discharged, sorted(axioms_all), log_all, broken, names_all
 
 
 def lint():
